@@ -178,6 +178,14 @@ func scnC12(mode string) scenarioFn {
 		cbk := &c12Callback{failAt: -1, failErr: errC12Callback}
 		if mode == "cberr" {
 			cbk.failAt = rc.Sub % nrec
+			// the callback's error may be, or wrap, a context error of its own (a per-record
+			// time-out): it is still the callback's error
+			switch t.Choose(4, "cberr.kind") {
+			case 2:
+				cbk.failErr = fmt.Errorf("per-record time-out: %w", context.DeadlineExceeded)
+			case 3:
+				cbk.failErr = context.Canceled
+			}
 		}
 		eioAt := -1
 		if mode == "eio" && len(writes) > 0 {
@@ -293,7 +301,7 @@ func scnC12(mode string) scenarioFn {
 		}
 		switch mode {
 		case "cberr":
-			if res.err != errC12Callback {
+			if res.err != cbk.failErr {
 				rc.Fail("C12", "callback-error-not-returned-unchanged", "Ingest returned %v (%T) instead of the callback's error value", res.err, res.err)
 			}
 		case "eof":
